@@ -139,6 +139,15 @@ def variant_cells(c, fn, roots):
         return {}
     ev = kinds.Eval(c, roots)
     out = {}
+    # variant kinds turned away before the table: `if matches!(details, VariantDetails::X(..)) { return None }`
+    from lib import outcome
+    refused = set()
+    for n, _ in walk(h["body"]):
+        if n is m:
+            break
+        if n.get("k") == "if" and n.get("else") is None and isinstance(n.get("cond"), dict) and n["cond"].get("k") == "match" and n["cond"].get("mac") == "matches" \
+                and "VariantDetails" in c.ty(n["cond"].get("scty")) and outcome(n["then"]) in ("ret-none", "ret-err"):
+            refused |= {x.split("::")[-1] for x in pat_top_variants(n["cond"]["arms"][0]["pat"])}
     for arm in m["arms"]:
         names = [x.split("::")[-1] for x in pat_top_variants(arm["pat"])]
         if names == ["tuple"]:
@@ -146,6 +155,9 @@ def variant_cells(c, fn, roots):
         r = set()
         s = ev.succ(arm["body"], ALL, v, r)
         for nme in names:
+            if nme in refused:
+                out.setdefault(nme, frozenset())
+                continue
             out[nme] = out.get(nme, frozenset()) | frozenset(s | r)
     return out
 
@@ -157,6 +169,7 @@ def run(facts, rep, tier):
     run_d7(facts, rep)
     run_d8(facts, rep)
     run_d9(facts, rep)
+    run_d10(facts, rep)
     val, ren = find_mirror(c)
     if not rep.floor("C06.D1", "default validator / renderer pair", (1 if val else 0) + (1 if ren else 0), 2):
         return
@@ -784,7 +797,8 @@ def run_d9(facts, rep):
     vv, rv = value_param(vh[0]), value_param(rh[0])
     # validator: per kind, the DefaultImpl variants of every arm that may be taken
     reg = {k: set() for k in NUMK}
-    inner = [m for m, _ in nodes(va["body"], "match") if m.get("src") == "normal" and m["scrut"].get("k") == "tup"]
+    inner = [m for m, _ in nodes(va["body"], "match") if m.get("src") == "normal" and m["scrut"].get("k") == "tup"
+             and any(x.get("k") == "path" and "DefaultImpl::" in x.get("path", "") for x, _ in walk(m["arms"]))]
     if not rep.floor("C06.D9", "validator's case analysis of the integer default", len(inner), 1):
         return
     for k in NUMK:
@@ -829,3 +843,58 @@ def run_d9(facts, rep):
         rep.ob("C06.D9", "named-helper-is-registered:%s" % k, bool(named[k]) and not miss,
                "for %s integer defaults the renderer names %s and the validator registers %s" % (k, sorted(named[k]), sorted(regn)) if named[k] and not miss else
                "for a %s integer default the renderer names `defaults::%s` but the validator registers only %s for that kind: the attribute refers to a function that is never emitted (the output does not compile)" % ({"u64": "non-negative", "big": "very large (> i64::MAX)", "neg": "negative"}[k], "/".join(miss) or "?", sorted(regn)), va.get("sp"))
+
+
+# ---------------------------------------------------------------- D10 numbers are not squeezed through a narrower representation
+INT_TYS = ("i8", "i16", "i32", "i64", "i128", "isize", "u8", "u16", "u32", "u64", "u128", "usize")
+
+
+def lossy_float_cast(c, n, anc):
+    """a `<f64 expr> as <integer>` cast that no enclosing condition bounds: it saturates/truncates silently"""
+    from lib import strip_refs, src
+    if n.get("k") != "cast" or not isinstance(n.get("e"), dict):
+        return None
+    te = c.ty(strip_refs(n["e"]).get("ty")) or c.ty(n["e"].get("ty"))
+    if te not in ("f64", "f32") or c.ty(n.get("ty")) not in INT_TYS:
+        return None
+    opnd = src(strip_refs(n["e"]))
+    for a in anc:
+        conds = []
+        if a.get("k") == "if":
+            conds.append(a["cond"])
+        if a.get("k") == "mcall" and a.get("name") in ("then", "then_some", "filter"):
+            conds.append(a["recv"])
+        if a.get("k") is None and a.get("guard") is not None:
+            conds.append(a["guard"])
+        for cnd in conds:
+            for x, _ in walk(cnd):
+                if x.get("k") == "bin" and x.get("op") in ("Lt", "Le", "Gt", "Ge") and opnd in src(x):
+                    return False
+    return True
+
+
+def run_d10(facts, rep):
+    c = facts.impl
+    ncast = 0
+    for h in c.user_fns():
+        for n, anc in walk(h["body"]):
+            if n.get("k") != "cast":
+                continue
+            ncast += 1
+            r = lossy_float_cast(c, n, anc)
+            if r is None:
+                continue
+            key = "%s#%d" % (h["fn"], sum(1 for o in rep.obligations if o["key"].startswith("C06.D10/float-to-integer-cast:%s#" % h["fn"])))
+            rep.ob("C06.D10", "float-to-integer-cast:" + key, not r, "bounded by an enclosing comparison" if not r else
+                   "`%s` casts a floating-point number to `%s` with no range test: an integer above i64::MAX (or any number outside the target's range) saturates silently, so a JSON number is validated / rendered as a different number" % (src(n)[:60], c.ty(n.get("ty"))), n.get("sp"))
+    rep.floor("C06.D10", "casts scanned", ncast, 30)
+    # positive control: the matcher recognises an unguarded `f as i64` and accepts a guarded one
+    tys = list(c.types)
+    if "f64" in tys and "i64" in tys:
+        fi, ii = tys.index("f64"), tys.index("i64")
+        cast = {"k": "cast", "e": {"k": "path", "res": "local", "path": "f", "ty": fi}, "ty": ii}
+        guard = {"k": "if", "cond": {"k": "bin", "op": "Lt", "l": {"k": "path", "res": "local", "path": "f", "ty": fi}, "r": {"k": "lit", "v": {"float": "1e15"}}}, "then": cast}
+        okc = lossy_float_cast(c, cast, ()) is True and lossy_float_cast(c, cast, (guard,)) is False
+    else:
+        okc = False
+    rep.ob("C06.D10", "positive-control", okc, "the matcher fires on an unguarded `f as i64` and not on a guarded one", nontrivial=False)
